@@ -714,4 +714,38 @@ theorem C20_join_column_examples :
     (joinCol (["column", "autoincrement", "index", "uniqueindex"].map String.toList) (gormTag "uniqueIndex".toList)).unique = true := by
   decide
 
+/-- A source column WITHOUT any uniqueness / index setting (arbitrarily many settings, none of which contains one of the
+    stripped names): the join-table column buildMany2ManyRelation derives from it is neither UNIQUE (no `uni_…` constraint
+    from ParseUniqueConstraints) nor indexed — for every list of settings. -/
+theorem C20_join_column_clean (ss : List Str) (h : ∀ s ∈ ss, CleanSetting s) :
+    (joinCol joinStrip (gormTag (joinWith ';' ss))).unique = false ∧
+    (joinCol joinStrip (gormTag (joinWith ';' ss))).indexed = false := joinCol_clean ss h
+
+/-- FINDING F30 (unchanged tree, reproduced end to end on SQLite: the second link to a shared target is dropped silently).
+    "A join-table column is never unique by itself" does NOT hold for every tag: `removeSettingFromTag` removes ONE match per
+    name, so of two uniqueness settings one survives as `unique`; and `uniqueIndex` followed by a blank setting leaves
+    `unique ` (key UNIQUE after trimming). -/
+theorem C20_join_column_unique_counterexample :
+    (joinCol joinStrip (gormTag "unique;uniqueIndex".toList)).unique = true ∧
+    (joinCol joinStrip (gormTag "uniqueIndex:a;uniqueIndex:b".toList)).unique = true ∧
+    (joinCol joinStrip (gormTag "uniqueIndex; ".toList)).unique = true ∧
+    (joinCol joinStrip (gormTag "index:a;index:b".toList)).indexed = true :=
+  ⟨joinCol_two_unique_witness, joinCol_two_uniqueIndex_witness, joinCol_glue_space_witness, joinCol_two_index_witness⟩
+
+/-- THE PROPERTY OF THE CLEAN-UP LIST, outside the finding's pattern: a source column with exactly ONE uniqueness / index
+    setting `hot` — `unique`, `uniqueIndex`, `index` in any letter case, bare or with a (clean) value — anywhere among
+    arbitrarily many other settings gives a join-table column that is NOT unique and NOT indexed: the only uniqueness of an
+    auto-created join table is its composite primary key, so one target row can be linked to any number of owners.
+    (Proviso for `uniqueIndex`: the next setting does not begin with white space — the third witness above.)
+    Together with `C20_join_strip_lists` this is what the seeded change (a list without `unique`) destroys. -/
+theorem C20_join_column_unique_partial (pre post : List Str) (hot : Str)
+    (hpre : ∀ s ∈ pre, CleanSetting s) (hpost : ∀ s ∈ post, CleanSetting s) (hh : HotSetting hot)
+    (hg : HotWith nUniqueIndex hot → GlueSafe post) :
+    let c := joinCol joinStrip (gormTag (joinWith ';' (pre ++ hot :: post)))
+    c.unique = false ∧ c.indexed = false := joinCol_single_hot pre post hot hpre hpost hh hg
+
+/-- non-vacuity: `size:10;uniqueIndex:ux;not null` -/
+example : (joinCol joinStrip (gormTag (joinWith ';' (["size:10".toList] ++ "uniqueIndex:ux".toList :: ["not null".toList])))).unique = false := by
+  decide
+
 end Gorm.Mig
